@@ -21,7 +21,7 @@
 //@type boost::mpi::status => MpiStatus val
 //@type (boost::)?optional<boost::mpi::status> => OptStatus val
 //@type std::stack<int(, std::deque<int(, std::allocator<int> ?)?> ?)?> => IntStack ptr
-//@type std::vector<int(, std::allocator<int> ?)?> => IntVec ptr
+//@type std::vector<int(, std::allocator<int> ?)?>|std::vector<(pMPI::)?(WorkerId|JobId)> => IntVec ptr
 //@type std::vector<bool(, std::allocator<bool> ?)?> => BoolVec ptr
 //@type std::vector<boost::mpi::request(, std::allocator<boost::mpi::request> ?)?> => ReqVec ptr
 //@type std::map<int, int(, .*)?> => IntMap ptr
@@ -112,18 +112,23 @@ void VERIF_mpi_send_hook(Comm *c, int dest, int tag, _Bool has_value, int value)
 
 /* type invariant of MPIMaster (from the constructor: wait_statuses(Nprocs), workers_finish(Nprocs,false),
  * Ntasks = task_numbers.size(), Nprocs = worker_pool.size()); worker_pool / task_numbers are pools (distinct ids) */
+/* (a) the scalar facts -- exactly what the constructor must establish (ensures of MPIMaster::MPIMaster below) */
+#define MASTER_WF_SC(m) ((m)->Ntasks <= MPI_MAXN && (m)->Nprocs <= MPI_MAXN && \
+         (m)->task_numbers.pool == 2 && (m)->worker_pool.pool == 1 && VERIF_pool_sealed[1] && VERIF_pool_sealed[2] && \
+         VERIF_pool_size[2] == (m)->task_numbers.size && VERIF_pool_size[1] == (m)->worker_pool.size && \
+         (m)->task_numbers.size == (m)->Ntasks && (m)->worker_pool.size == (m)->Nprocs && \
+         (m)->wait_statuses.size == (m)->Nprocs && (m)->wait_statuses.nobuf && (m)->workers_finish.size == (m)->Nprocs && \
+         (m)->JobStack.gcount <= (m)->JobStack.size && (m)->JobStack.size <= MPI_MAXN && (m)->WorkerStack.gcount <= (m)->WorkerStack.size && (m)->WorkerStack.size <= MPI_MAXN && \
+         (m)->JobStack.pool == 0 && ((m)->WorkerStack.pool == 0 || (m)->WorkerStack.pool == 1) && \
+         ((m)->WorkerIndices.inv_pool == 0 || (m)->WorkerIndices.inv_pool == 1) && \
+         (m)->DispatchMap.inv_pool == 0 && (m)->DispatchMap.size <= MPI_MAXN && (m)->WorkerIndices.size <= MPI_MAXN && \
+         MPI_n_outstanding >= 0 && MPI_n_outstanding <= (long)MPI_MAXN && MPI_n_posted <= MPI_MAXN && (m)->Comm.n_sends <= MPI_MAXN)
+/* (b) + the four arrays are separate objects of the right length */
 static _Bool Master_wf(struct MPIMaster *m)
 {
-  return m->Ntasks <= MPI_MAXN && m->Nprocs <= MPI_MAXN &&
-         m->task_numbers.pool == 2 && m->worker_pool.pool == 1 &&
-         IntVec_wf(&m->task_numbers) && m->task_numbers.size == m->Ntasks &&
-         IntVec_wf(&m->worker_pool) && m->worker_pool.size == m->Nprocs &&
-         ReqVec_wf(&m->wait_statuses) && m->wait_statuses.size == m->Nprocs && m->wait_statuses.nobuf &&
-         BoolVec_wf(&m->workers_finish) && m->workers_finish.size == m->Nprocs &&
-         IntStack_wf(&m->JobStack) && IntStack_wf(&m->WorkerStack) && m->JobStack.pool == 0 && (m->WorkerStack.pool == 0 || m->WorkerStack.pool == 1) &&
-         (m->WorkerIndices.inv_pool == 0 || m->WorkerIndices.inv_pool == 1) &&
-         m->DispatchMap.inv_pool == 0 && m->DispatchMap.size <= MPI_MAXN && m->WorkerIndices.size <= MPI_MAXN &&
-         MPI_n_outstanding >= 0 && MPI_n_outstanding <= (long)MPI_MAXN && MPI_n_posted <= MPI_MAXN && m->Comm.n_sends <= MPI_MAXN;
+  return MASTER_WF_SC(m) &&
+         __CPROVER_is_fresh(m->task_numbers.data, m->task_numbers.size * sizeof(int)) && __CPROVER_is_fresh(m->worker_pool.data, m->worker_pool.size * sizeof(int)) &&
+         __CPROVER_is_fresh(m->wait_statuses.data, m->wait_statuses.size * sizeof(MpiReq)) && __CPROVER_is_fresh(m->workers_finish.data, m->workers_finish.size * sizeof(_Bool));
 }
 /* the ghost worker: a position g_wp of the pool (or -1 iff the pool is empty) and the id g_w stored there;
  * the ghost value of WorkerStack and the ghost key of WorkerIndices are g_w */
@@ -132,9 +137,11 @@ static _Bool Ghost_worker(struct MPIMaster *m)
   return (m->Nprocs == 0 ? g_wp == -1 : (0 <= g_wp && (unsigned long)g_wp < m->Nprocs)) &&
          (g_wp < 0 || (m->worker_pool.data[g_wp] == g_w && POOL_ID(1, g_wp) == g_w && POOL_IDX(1, g_w) == g_wp)) &&
          (g_wp >= 0 || POOL_IDX(1, g_w) == -1) &&
-         m->WorkerStack.gval == g_w && m->WorkerIndices.gkey == (long)g_w &&
-         g_watch == (g_wp >= 0 ? &m->wait_statuses.data[g_wp] : (MpiReq *)0);
+         m->WorkerStack.gval == g_w && m->WorkerIndices.gkey == (long)g_w;
 }
+/* ... and the store monitor watches the ghost worker's request slot (functions that post receives) */
+static _Bool Ghost_worker_w(struct MPIMaster *m)
+{ return Ghost_worker(m) && g_watch == (g_wp >= 0 ? &m->wait_statuses.data[g_wp] : (MpiReq *)0); }
 /* WorkerIndices is the inverse of worker_pool (established by fill_stack_): tag for the other keys, explicit at the ghost key */
 static _Bool WorkerIndices_inv(struct MPIMaster *m)
 {
@@ -153,7 +160,7 @@ static _Bool WorkerIndices_inv(struct MPIMaster *m)
 /* (the equality with the ghost pointer must stay in the clause of is_fresh and be its last conjunct: CBMC's value sets) */
 __CPROVER_requires(__CPROVER_is_fresh(self, sizeof(*self)) && g_master == self)
 __CPROVER_requires(g_worker == (struct MPIWorker *)0 && Master_wf(self))
-__CPROVER_requires(Ghost_worker(self) && WorkerIndices_inv(self))
+__CPROVER_requires(Ghost_worker_w(self) && WorkerIndices_inv(self))
 /* worker is a pool member at position g_ws, and idle */
 __CPROVER_requires(g_ws == POOL_IDX(1, worker) && 0 <= g_ws && (unsigned long)g_ws < self->Nprocs && POOL_ID(1, g_ws) == worker)
 __CPROVER_requires(!self->wait_statuses.data[g_ws].active)
@@ -215,7 +222,7 @@ void h_order_worker(void)
 //@contract
 __CPROVER_requires(__CPROVER_is_fresh(self, sizeof(*self)) && g_master == self)
 __CPROVER_requires(g_worker == (struct MPIWorker *)0 && Master_wf(self))
-__CPROVER_requires(Ghost_worker(self) && WorkerIndices_inv(self) && GHOST_JOB(self))
+__CPROVER_requires(Ghost_worker_w(self) && WorkerIndices_inv(self) && GHOST_JOB(self))
 __CPROVER_requires(MINV_A(self) && MINV_B(self) && MINV_C(self))
 __CPROVER_requires(g_pops == (self->WorkerStack.size < self->JobStack.size ? self->WorkerStack.size : self->JobStack.size))
 __CPROVER_assigns(self->Comm.n_sends, self->Comm.n_dest_tag, self->Comm.last_dest_tag_value, self->Comm.last_dest_tag_has_value,
@@ -266,8 +273,8 @@ void h_order(void)
  * |JobStack| == Ntasks, |WorkerStack| == Nprocs, first task / first worker on top. */
 //@function pMPI::MPIMaster::fill_stack_() as MPIMaster_fill_stack_
 //@contract
-__CPROVER_requires(__CPROVER_is_fresh(self, sizeof(*self)) && g_master == self)
-__CPROVER_requires(g_worker == (struct MPIWorker *)0 && Master_wf(self))
+/* (no monitor runs in here: the ghost pointers g_master / g_worker are not needed, so the contract can be used for a local object too) */
+__CPROVER_requires(__CPROVER_is_fresh(self, sizeof(*self)) && Master_wf(self))
 __CPROVER_requires(Ghost_worker(self) && GHOST_JOB(self))
 /* the ghost job: at position g_tp of task_numbers, or not a task at all */
 __CPROVER_requires((g_tp == -1 || (0 <= g_tp && (unsigned long)g_tp < self->Ntasks)) && g_jmult == (g_tp >= 0 ? 1UL : 0UL) && POOL_IDX(2, g_job) == g_tp)
@@ -315,20 +322,202 @@ void h_fill_stack(void)
   REACH("exit");
 }
 
+#define MINV_D(self) (g_wp < 0 || (self)->Comm.n_dest_tag == ((self)->workers_finish.data[g_wp] ? 1UL : 0UL))
+#define GHOST_FINISH(self) ((self)->Comm.g_dest == g_w && (self)->Comm.g_tag == Finish)
+/* ---------------------------------------------------------------- 3b. the MPIMaster constructors, swap, _autorange_*
+ * MPIMaster(comm, worker_pool, task_numbers) ESTABLISHES the type invariant that every other contract of this file requires
+ * (MASTER_WF_SC: Ntasks / Nprocs = sizes of the two vectors, wait_statuses and workers_finish have Nprocs entries -- null requests,
+ * flags false --, empty maps), keeps the caller's communicator (Comm.id == comm.id: the communicator is modelled with an identity,
+ * 0 = MPI_COMM_WORLD = what a default-constructed communicator is) and, through fill_stack_ (used by its CONTRACT), MINV.
+ * Pre-condition: the two vectors hold pairwise distinct ids (pools 1 and 2).  The ghost selections of the containers created inside
+ * are prophecy ghosts of stubs/mpi.h, tied here to the ghost worker / job. */
+#define CTOR_GHOSTS(comm) (MPI_n_stack_ctor % 2 == 0 && MPI_n_stack_ctor <= MPI_MAXN && MPI_new_stack_gval[0] == g_job && MPI_new_stack_gval[1] == g_w && \
+         MPI_new_stack_pool[0] == 0 && MPI_new_stack_pool[1] == 1 && MPI_new_intmap_gkey == (long)g_job && MPI_new_ulmap_gkey == (long)g_w && \
+         (comm)->g_vtag == Work && (comm)->g_value == g_job && (comm)->n_tag_value == 0 && (comm)->g_dest == g_w && (comm)->g_tag == Finish && (comm)->n_dest_tag == 0 && \
+         (comm)->n_sends <= MPI_MAXN && MPI_n_outstanding == 0 && MPI_n_posted <= MPI_MAXN && g_jmult <= 1)
+#define COMM_KEPT(self, comm) ((self)->Comm.id == (comm)->id && (self)->Comm.rank_ == (comm)->rank_ && (self)->Comm.size_ == (comm)->size_ && \
+         (self)->Comm.n_sends == (comm)->n_sends && (self)->Comm.n_tag_value == 0 && (self)->Comm.n_dest_tag == 0 && GHOST_FINISH(self))
+/* what a constructed master looks like (besides the arrays being allocated) */
+#define CTOR_POST(self) (MASTER_WF_SC(self) && GHOST_JOB(self) && MINV_A(self) && MINV_B(self) && MINV_C(self) && MINV_D(self) && \
+         (self)->JobStack.size == (self)->Ntasks && (self)->WorkerStack.size == (self)->Nprocs && (self)->WorkerStack.pool == 1 && \
+         (self)->JobStack.gcount == g_jmult && (self)->WorkerStack.gcount == (g_wp >= 0 ? 1UL : 0UL) && \
+         (self)->WorkerStack.gval == g_w && (self)->WorkerIndices.gkey == (long)g_w && (self)->WorkerIndices.size <= (self)->Nprocs && \
+         (self)->DispatchMap.size == 0 && !(self)->DispatchMap.gpresent && MPI_n_outstanding == 0 && \
+         (g_wp < 0 || (!(self)->workers_finish.data[g_wp] && !(self)->wait_statuses.data[g_wp].active)))
+//@function pMPI::MPIMaster::MPIMaster(boost::mpi::communicator const&, std::vector<int, std::allocator<int> >, std::vector<int, std::allocator<int> >) as MPIMaster_ctor3
+//@contract
+__CPROVER_requires(__CPROVER_is_fresh(self, sizeof(*self)) && __CPROVER_is_fresh(comm, sizeof(*comm)))
+__CPROVER_requires(worker_pool.size <= MPI_MAXN && task_numbers.size <= MPI_MAXN &&
+                   __CPROVER_is_fresh(worker_pool.data, worker_pool.size * sizeof(int)) && __CPROVER_is_fresh(task_numbers.data, task_numbers.size * sizeof(int)))
+/* the vectors are pools: pairwise distinct ids */
+__CPROVER_requires(worker_pool.pool == 1 && task_numbers.pool == 2 && VERIF_pool_sealed[1] && VERIF_pool_sealed[2] &&
+                   VERIF_pool_size[1] == worker_pool.size && VERIF_pool_size[2] == task_numbers.size)
+__CPROVER_requires(CTOR_GHOSTS(comm))
+/* ghost worker / ghost job (as in fill_stack_) */
+__CPROVER_requires((worker_pool.size == 0 ? g_wp == -1 : (0 <= g_wp && (unsigned long)g_wp < worker_pool.size)) &&
+                   (g_wp < 0 || (worker_pool.data[g_wp] == g_w && POOL_ID(1, g_wp) == g_w && POOL_IDX(1, g_w) == g_wp)) && (g_wp >= 0 || POOL_IDX(1, g_w) == -1))
+__CPROVER_requires((g_tp == -1 || (0 <= g_tp && (unsigned long)g_tp < task_numbers.size)) && g_jmult == (g_tp >= 0 ? 1UL : 0UL) && POOL_IDX(2, g_job) == g_tp &&
+                   (g_tp < 0 || (task_numbers.data[g_tp] == g_job && POOL_ID(2, g_tp) == g_job)))
+__CPROVER_assigns(*self, MPI_n_stack_ctor)
+__CPROVER_ensures(COMM_KEPT(self, comm))
+__CPROVER_ensures(self->Ntasks == task_numbers.size && self->Nprocs == worker_pool.size && self->task_numbers.data == task_numbers.data && self->worker_pool.data == worker_pool.data)
+__CPROVER_ensures(__CPROVER_is_fresh(self->wait_statuses.data, self->Nprocs * sizeof(MpiReq)) && __CPROVER_is_fresh(self->workers_finish.data, self->Nprocs * sizeof(_Bool)))
+__CPROVER_ensures(CTOR_POST(self))
+//@end
+
+//@harness h_master_ctor enforce=MPIMaster_init3 replace=MPIMaster_fill_stack_ props=C16 min_obl=100 reach=1 timeout=240
+void h_master_ctor(void)
+{
+  struct MPIMaster *m; Comm *c; IntVec wp, tn;
+  MPIMaster_init3(m, c, wp, tn);
+  REACH("exit");
+}
+
+/* ---- _autorange_tasks(n) = (0,1,...,n-1);  _autorange_workers(comm, include_boss) = all ranks, without the caller's own rank unless
+ * include_boss; throws std::logic_error when that leaves nobody.  Both sequences are strictly increasing, hence pools.
+ * Each function is printed twice: `*_proved` is ENFORCED with the pool label 0 on the vector it fills (a labelled vector under
+ * construction would make the stubs assume the pool facts about half-written contents); the copy under the name the callers use
+ * carries the same contract without that restriction and is only ever used by REPLACEMENT in the delegating constructors --
+ * justified because the label is ghost data that the code never reads. */
+unsigned long g_at, g_aw;     /* ghost indices into the two generated vectors */
+#define COMM_OK(comm) ((comm)->size_ >= 1 && 0 <= (comm)->rank_ && (comm)->rank_ < (comm)->size_)     /* ASSUMED: MPI: a communicator has >= 1 ranks, 0 <= rank < size */
+#define AW_NPROCS(comm, ib) ((unsigned long)((comm)->size_ - ((ib) ? 0 : 1)))
+#define AW_VALUE(comm, ib, k) (((ib) || (long)(k) < (long)(comm)->rank_) ? (int)(k) : (int)(k) + 1)
+//@maythrow _autorange_workers autorange_workers_proved
+//@function pMPI::_autorange_tasks(unsigned long) as autorange_tasks_proved
+//@contract
+__CPROVER_requires(ntasks <= MPI_MAXN && MPI_new_vec1_pool == 0)
+__CPROVER_assigns()
+__CPROVER_ensures(__CPROVER_return_value.size == ntasks && __CPROVER_return_value.pool == MPI_new_vec1_pool && __CPROVER_is_fresh(__CPROVER_return_value.data, ntasks * sizeof(int)))
+__CPROVER_ensures(g_at >= ntasks || __CPROVER_return_value.data[g_at] == (int)g_at)
+//@loop 1
+__CPROVER_assigns(i, __CPROVER_object_whole(out.data))
+__CPROVER_loop_invariant(i <= ntasks && out.size == ntasks && out.pool == 0 && (g_at >= i || out.data[g_at] == (int)g_at))
+__CPROVER_decreases(ntasks - i)
+//@end
+//@function pMPI::_autorange_tasks(unsigned long) as _autorange_tasks
+//@contract
+__CPROVER_requires(ntasks <= MPI_MAXN)
+__CPROVER_assigns()
+__CPROVER_ensures(__CPROVER_return_value.size == ntasks && __CPROVER_return_value.pool == MPI_new_vec1_pool && __CPROVER_is_fresh(__CPROVER_return_value.data, ntasks * sizeof(int)))
+__CPROVER_ensures(g_at >= ntasks || __CPROVER_return_value.data[g_at] == (int)g_at)
+//@loop 1
+__CPROVER_assigns(i, __CPROVER_object_whole(out.data))
+__CPROVER_loop_invariant(i <= ntasks)
+__CPROVER_decreases(ntasks - i)
+//@end
+//@function pMPI::_autorange_workers(boost::mpi::communicator const&, bool) as autorange_workers_proved
+//@contract
+__CPROVER_requires(__CPROVER_is_fresh(comm, sizeof(*comm)) && COMM_OK(comm) && MPI_new_vec0_cap >= (unsigned long)comm->size_ && MPI_new_vec0_pool == 0 && !VERIF_thrown)
+__CPROVER_assigns(VERIF_thrown)
+__CPROVER_ensures(VERIF_thrown == (AW_NPROCS(comm, include_boss) == 0))
+__CPROVER_ensures(VERIF_thrown || (__CPROVER_return_value.size == AW_NPROCS(comm, include_boss) && __CPROVER_return_value.pool == MPI_new_vec0_pool &&
+                                   __CPROVER_is_fresh(__CPROVER_return_value.data, __CPROVER_return_value.size * sizeof(int))))
+__CPROVER_ensures(VERIF_thrown || g_aw >= AW_NPROCS(comm, include_boss) || __CPROVER_return_value.data[g_aw] == AW_VALUE(comm, include_boss, g_aw))
+//@loop 1
+__CPROVER_assigns(p, out.size, __CPROVER_object_whole(out.data))
+__CPROVER_loop_invariant(p <= (unsigned long)comm->size_ && out.pool == 0 && out.size == ((include_boss || p <= (unsigned long)comm->rank_) ? p : p - 1))
+__CPROVER_loop_invariant(g_aw >= out.size || out.data[g_aw] == AW_VALUE(comm, include_boss, g_aw))
+__CPROVER_decreases((unsigned long)comm->size_ - p)
+//@end
+//@function pMPI::_autorange_workers(boost::mpi::communicator const&, bool) as _autorange_workers
+//@contract
+__CPROVER_requires(__CPROVER_is_fresh(comm, sizeof(*comm)) && COMM_OK(comm) && !VERIF_thrown)
+__CPROVER_assigns(VERIF_thrown)
+__CPROVER_ensures(VERIF_thrown == (AW_NPROCS(comm, include_boss) == 0))
+__CPROVER_ensures(VERIF_thrown || (__CPROVER_return_value.size == AW_NPROCS(comm, include_boss) && __CPROVER_return_value.pool == MPI_new_vec0_pool &&
+                                   __CPROVER_is_fresh(__CPROVER_return_value.data, __CPROVER_return_value.size * sizeof(int))))
+__CPROVER_ensures(VERIF_thrown || g_aw >= AW_NPROCS(comm, include_boss) || __CPROVER_return_value.data[g_aw] == AW_VALUE(comm, include_boss, g_aw))
+//@loop 1
+__CPROVER_assigns(p, out.size, __CPROVER_object_whole(out.data))
+__CPROVER_loop_invariant(p <= (unsigned long)comm->size_)
+__CPROVER_decreases((unsigned long)comm->size_ - p)
+//@end
+//@harness h_autorange_tasks enforce=autorange_tasks_proved props=C16 min_obl=50 reach=1 timeout=60
+void h_autorange_tasks(void) { unsigned long n; autorange_tasks_proved(n); REACH("exit"); }
+//@harness h_autorange_workers enforce=autorange_workers_proved props=C16 min_obl=50 reach=2 timeout=60
+void h_autorange_workers(void) { Comm *c; _Bool ib; autorange_workers_proved(c, ib); if (VERIF_thrown) REACH("thrown"); else REACH("exit"); }
+
+/* ---- MPIMaster::swap (no contract: inlined) and the two delegating constructors
+ *   MPIMaster(comm, ntasks, include_boss)  = MPIMaster x(comm, _autorange_workers(comm, include_boss), _autorange_tasks(ntasks)); swap(x)
+ *   MPIMaster(comm, task_numbers, include_boss) = ... with the given task vector.
+ * swap() exchanges every member EXCEPT Comm, so the object keeps the communicator its own initialiser list copied: Comm(comm).
+ * The inner constructor and _autorange_* are used by their contracts. */
+//@function pMPI::MPIMaster::swap(pMPI::MPIMaster&) as MPIMaster_swap
+//@end
+#define NTASKS ntasks
+//@function pMPI::MPIMaster::MPIMaster(boost::mpi::communicator const&, unsigned long, bool) as MPIMaster_ctor3n
+//@contract
+__CPROVER_requires(__CPROVER_is_fresh(self, sizeof(*self)) && __CPROVER_is_fresh(comm, sizeof(*comm)) && COMM_OK(comm) && !VERIF_thrown)
+/* prophecy ghosts: the generated worker vector is pool 1, the task vector pool 2 */
+__CPROVER_requires(MPI_new_vec0_pool == 1 && MPI_new_vec1_pool == 2 && VERIF_pool_sealed[1] && VERIF_pool_sealed[2] && MPI_new_vec0_cap <= MPI_MAXN &&
+                   VERIF_pool_size[1] == AW_NPROCS(comm, include_boss) && VERIF_pool_size[2] == NTASKS)
+__CPROVER_requires(CTOR_GHOSTS(comm))
+/* ghost worker: position g_wp of the generated pool and the rank generated there */
+__CPROVER_requires((AW_NPROCS(comm, include_boss) == 0 ? g_wp == -1 : (0 <= g_wp && (unsigned long)g_wp < AW_NPROCS(comm, include_boss))) && g_aw == (unsigned long)g_wp &&
+                   (g_wp < 0 || (g_w == AW_VALUE(comm, include_boss, g_wp) && POOL_ID(1, g_wp) == g_w && POOL_IDX(1, g_w) == g_wp)) && (g_wp >= 0 || POOL_IDX(1, g_w) == -1))
+__CPROVER_requires(ntasks <= MPI_MAXN)
+/* ghost job: the task id generated at position g_tp (= g_tp), or not a task */
+__CPROVER_requires((g_tp == -1 || (0 <= g_tp && (unsigned long)g_tp < ntasks)) && g_at == (unsigned long)g_tp && g_jmult == (g_tp >= 0 ? 1UL : 0UL) && POOL_IDX(2, g_job) == g_tp &&
+                   (g_tp < 0 || (g_job == (int)g_tp && POOL_ID(2, g_tp) == g_job)))
+__CPROVER_assigns(*self, MPI_n_stack_ctor, VERIF_thrown)
+/* nobody to work: std::logic_error */
+__CPROVER_ensures(VERIF_thrown == (AW_NPROCS(comm, include_boss) == 0))
+/* otherwise: the caller's communicator, the generated pool, and the state established by MPIMaster(comm, worker_pool, task_numbers) */
+__CPROVER_ensures(VERIF_thrown || (COMM_KEPT(self, comm) && self->Nprocs == AW_NPROCS(comm, include_boss) && self->Ntasks == NTASKS))
+__CPROVER_ensures(VERIF_thrown || CTOR_POST(self))
+//@end
+#undef NTASKS
+#define NTASKS task_numbers.size
+//@function pMPI::MPIMaster::MPIMaster(boost::mpi::communicator const&, std::vector<int, std::allocator<int> >, bool) as MPIMaster_ctor3v
+//@contract
+__CPROVER_requires(__CPROVER_is_fresh(self, sizeof(*self)) && __CPROVER_is_fresh(comm, sizeof(*comm)) && COMM_OK(comm) && !VERIF_thrown)
+/* prophecy ghosts: the generated worker vector is pool 1, the task vector pool 2 */
+__CPROVER_requires(MPI_new_vec0_pool == 1 && MPI_new_vec1_pool == 2 && VERIF_pool_sealed[1] && VERIF_pool_sealed[2] && MPI_new_vec0_cap <= MPI_MAXN &&
+                   VERIF_pool_size[1] == AW_NPROCS(comm, include_boss) && VERIF_pool_size[2] == NTASKS)
+__CPROVER_requires(CTOR_GHOSTS(comm))
+/* ghost worker: position g_wp of the generated pool and the rank generated there */
+__CPROVER_requires((AW_NPROCS(comm, include_boss) == 0 ? g_wp == -1 : (0 <= g_wp && (unsigned long)g_wp < AW_NPROCS(comm, include_boss))) && g_aw == (unsigned long)g_wp &&
+                   (g_wp < 0 || (g_w == AW_VALUE(comm, include_boss, g_wp) && POOL_ID(1, g_wp) == g_w && POOL_IDX(1, g_w) == g_wp)) && (g_wp >= 0 || POOL_IDX(1, g_w) == -1))
+__CPROVER_requires(task_numbers.size <= MPI_MAXN && __CPROVER_is_fresh(task_numbers.data, task_numbers.size * sizeof(int)) && task_numbers.pool == 2)
+__CPROVER_requires((g_tp == -1 || (0 <= g_tp && (unsigned long)g_tp < task_numbers.size)) && g_jmult == (g_tp >= 0 ? 1UL : 0UL) && POOL_IDX(2, g_job) == g_tp &&
+                   (g_tp < 0 || (task_numbers.data[g_tp] == g_job && POOL_ID(2, g_tp) == g_job)))
+__CPROVER_assigns(*self, MPI_n_stack_ctor, VERIF_thrown)
+/* nobody to work: std::logic_error */
+__CPROVER_ensures(VERIF_thrown == (AW_NPROCS(comm, include_boss) == 0))
+/* otherwise: the caller's communicator, the generated pool, and the state established by MPIMaster(comm, worker_pool, task_numbers) */
+__CPROVER_ensures(VERIF_thrown || (COMM_KEPT(self, comm) && self->Nprocs == AW_NPROCS(comm, include_boss) && self->Ntasks == NTASKS))
+__CPROVER_ensures(VERIF_thrown || CTOR_POST(self))
+//@end
+#undef NTASKS
+
+//@harness h_master_ctor_ntasks enforce=MPIMaster_init3n replace=MPIMaster_init3,_autorange_workers,_autorange_tasks props=C16 min_obl=100 reach=2 timeout=240
+void h_master_ctor_ntasks(void)
+{
+  struct MPIMaster *m; Comm *c; unsigned long n; _Bool ib;
+  MPIMaster_init3n(m, c, n, ib);
+  if (VERIF_thrown) REACH("thrown"); else REACH("exit");
+}
+//@harness h_master_ctor_tasks enforce=MPIMaster_init3v replace=MPIMaster_init3,_autorange_workers props=C16 min_obl=100 reach=2 timeout=240
+void h_master_ctor_tasks(void)
+{
+  struct MPIMaster *m; Comm *c; IntVec tn; _Bool ib;
+  MPIMaster_init3v(m, c, tn, ib);
+  if (VERIF_thrown) REACH("thrown"); else REACH("exit");
+}
+
 /* ---------------------------------------------------------------- 4. MPIMaster::check_workers
  * "completion polling, re-queueing of idle workers, Finish broadcast when no job is left and all workers are idle".
  * MINV (a),(b),(d) preserved ((c) is framed: JobStack, DispatchMap and the Work log are not written).
  * FIN := no job left and no completion message outstanding (after the polling loop).
  *   Finish is sent only in FIN (send monitor), at most once per worker (monitor + (d)), and in FIN every worker
  *   has its Finish afterwards (ghost worker: flag set, exactly one Finish in the log). Outside FIN nothing is sent. */
-#define MINV_D(self) (g_wp < 0 || (self)->Comm.n_dest_tag == ((self)->workers_finish.data[g_wp] ? 1UL : 0UL))
-#define GHOST_FINISH(self) ((self)->Comm.g_dest == g_w && (self)->Comm.g_tag == Finish)
 #define FIN(self) ((self)->JobStack.size == 0 && MPI_n_outstanding == 0)
 //@function pMPI::MPIMaster::check_workers() as MPIMaster_check_workers
 //@contract
 __CPROVER_requires(__CPROVER_is_fresh(self, sizeof(*self)) && g_master == self)
 __CPROVER_requires(g_worker == (struct MPIWorker *)0 && Master_wf(self))
-__CPROVER_requires(Ghost_worker(self) && WorkerIndices_inv(self) && GHOST_FINISH(self))
+__CPROVER_requires(Ghost_worker_w(self) && WorkerIndices_inv(self) && GHOST_FINISH(self))
 __CPROVER_requires(MINV_A(self) && MINV_B(self) && MINV_D(self))
 __CPROVER_requires(g_old_flag == (g_wp >= 0 ? self->workers_finish.data[g_wp] : 0))
 __CPROVER_assigns(self->Comm.n_sends, self->Comm.n_dest_tag, self->Comm.last_dest_tag_value, self->Comm.last_dest_tag_has_value,
